@@ -15,7 +15,7 @@ git -C /repo worktree add --detach $E HEAD >/dev/null 2>&1 || exit 2
 git -C /repo worktree add --detach $C HEAD >/dev/null 2>&1 || exit 2
 res() { echo "$1" >> $E/.evalres; echo "  $1"; }
 : > $E/.evalres
-if git -C $E apply $OUT/patch.diff 2>/tmp/eval_apply_err; then res "apply=ok"; else res "apply=FAILED $(head -c 300 /tmp/eval_apply_err)"; fi
+if git -C $E apply $OUT/patch.diff 2>/tmp/eval_apply_err; then res "apply=ok"; elif git -C $E apply -3 $OUT/patch.diff 2>/tmp/eval_apply_err && git -C $E reset -q; then res "apply=ok (3-way: HEAD moved since the change was written)"; else res "apply=FAILED $(head -c 300 /tmp/eval_apply_err)"; fi
 touched=$(git -C $E diff --name-only | grep '\.go$' | grep -v _test.go | xargs -n1 dirname 2>/dev/null | sort -u)
 res "touched=$(echo $touched | tr '\n' ' ')"
 (cd $E && go build ./... >/tmp/eval_build.log 2>&1) && res "build=ok" || res "build=FAILED"
